@@ -71,3 +71,7 @@ def run(ctx):
     run_inventory(sub, 'info', ['ord::index::updater::Updater::index_block'], TABLE, partition=1)
     n_bad = sum(1 for o in sub.obligations if not o['ok'])
     ctx.informational(f'full indexing path (closure of Updater::index_block): {len(sub.obligations)} sites, {n_bad} of them depend on index invariants or configuration and are NOT decided by this check')
+
+
+# sensitivity pack (thorough tier): each seeded edit must be reported by the named rule instance
+MUTANTS = [{'name': 'edict-output-guard-dropped', 'file': 'crates/ordinals/src/edict.rs', 'old': '    if output > u32::try_from(tx.output.len()).unwrap() {\n      return None;\n    }\n', 'new': '', 'expect': ('R16.2', 'Edict::from_integers', 'Some only under')}]
